@@ -336,6 +336,70 @@ func exec(c px.Context, op string, args []sx.Sexp) core.Result {
 			return core.Fail(out, "pb-stream", "value through ConsumePBData/protoConsumer differs")
 		}
 		return core.Result{Out: out, Pred: "ok", NonTrivial: nt}
+	case "serjson":
+		// end to end (implementation only): the real serializer streaming a Data value into the JSON streamer,
+		// read back through JsonToData into the real deserializer; shared substructure and long repeated
+		// strings exercise back-references
+		v := valOf(args[0])
+		if hasBin(args[0]) || hasNonStringKey(args[0]) {
+			return core.Result{Out: "-", Pred: "n/a"}
+		}
+		w := types.WrapValues([]px.Value{v, v, types.WrapString("a string that is long enough to be de-duplicated"), v, types.WrapString("a string that is long enough to be de-duplicated")})
+		var buf bytes.Buffer
+		var back px.Value
+		if err := safely(func() {
+			serialization.NewSerializer(c, px.EmptyMap).Convert(w, serialization.NewJsonStreamer(&buf))
+		}); err != nil {
+			return core.Fail("-", "serjson-write-panic", fmt.Sprint(err))
+		}
+		if !json.Valid(buf.Bytes()) {
+			return core.Fail("-", "serjson-invalid-json", buf.String())
+		}
+		if err := safely(func() {
+			fc := serialization.NewDeserializer(c, px.EmptyMap)
+			serialization.JsonToData("t", bytes.NewReader(buf.Bytes()), fc)
+			back = fc.Value()
+		}); err != nil {
+			if containsReserved(args[0]) {
+				return core.Fail("-", "pref-key", "reserved key in user hash: "+fmt.Sprint(err))
+			}
+			return core.Fail("-", "serjson-read-panic", buf.String()+": "+fmt.Sprint(err))
+		}
+		if back == nil || !back.Equals(w, nil) || valStr(back) != valStr(w) {
+			if containsReserved(args[0]) {
+				return core.Fail("-", "pref-key", "reserved key in user hash changes the value on the way back")
+			}
+			return core.Fail("-", "serjson-differs", buf.String())
+		}
+		return core.Result{Out: "-", Pred: "ok", NonTrivial: true}
+	case "serpb":
+		// end to end (implementation only): the real serializer into the protobuf consumer, then
+		// ConsumePBData into the real deserializer
+		v := valOf(args[0])
+		if hasBin(args[0]) {
+			return core.Result{Out: "-", Pred: "n/a"}
+		}
+		w := types.WrapValues([]px.Value{v, v, types.WrapString("rep"), v, types.WrapString("rep")})
+		var back px.Value
+		if err := safely(func() {
+			pc := proto.NewProtoConsumer()
+			serialization.NewSerializer(c, px.EmptyMap).Convert(w, pc)
+			fc := serialization.NewDeserializer(c, px.EmptyMap)
+			proto.ConsumePBData(pc.Value(), fc)
+			back = fc.Value()
+		}); err != nil {
+			if containsReserved(args[0]) {
+				return core.Fail("-", "pref-key", "reserved key in user hash: "+fmt.Sprint(err))
+			}
+			return core.Fail("-", "serpb-panic", fmt.Sprint(err))
+		}
+		if back == nil || !back.Equals(w, nil) || valStr(back) != valStr(w) {
+			if containsReserved(args[0]) {
+				return core.Fail("-", "pref-key", "reserved key in user hash changes the value on the way back")
+			}
+			return core.Fail("-", "serpb-differs", valStr(back))
+		}
+		return core.Result{Out: "-", Pred: "ok", NonTrivial: true}
 	case "pbev":
 		e := evOf(args[0])
 		pc := proto.NewProtoConsumer()
@@ -368,6 +432,51 @@ func (e *ev) wfPairs() bool {
 		}
 	}
 	return true
+}
+
+func hasNonStringKey(e sx.Sexp) bool {
+	if e.Tag() == "h" {
+		for _, kv := range e.Args() {
+			if kv.List[0].Tag() != "s" || hasNonStringKey(kv.List[1]) {
+				return true
+			}
+		}
+		return false
+	}
+	if e.Tag() == "a" {
+		for _, k := range e.Args() {
+			if hasNonStringKey(k) {
+				return true
+			}
+		}
+	}
+	return false
+}
+
+// a user hash with one of the reserved keys (__pref, __ptype, __pvalue) is re-interpreted by the reader
+func containsReserved(e sx.Sexp) bool {
+	if e.Tag() == "h" {
+		for _, kv := range e.Args() {
+			if kv.List[0].Tag() == "s" {
+				k := kv.List[0].Args()[0].MustStr()
+				if k == "__pref" || k == "__ptype" || k == "__pvalue" {
+					return true
+				}
+			}
+			if containsReserved(kv.List[1]) {
+				return true
+			}
+		}
+		return false
+	}
+	if e.Tag() == "a" {
+		for _, k := range e.Args() {
+			if containsReserved(k) {
+				return true
+			}
+		}
+	}
+	return false
 }
 
 // ---- values for the pb op --------------------------------------------------------------------------------
@@ -554,7 +663,54 @@ func randVal(r *rand.Rand, depth int, bin bool) sx.Sexp {
 	return sx.T("h", xs...)
 }
 
+// chain builds containers nested `depth` deep; every level has a sibling before and after the nested child, so a
+// lost frame or state at any depth shows
+func chain(r *rand.Rand, depth int) *ev {
+	if depth == 0 {
+		return scalarEv(r)
+	}
+	inner := chain(r, depth-1)
+	if r.Intn(2) == 0 {
+		return &ev{kind: "a", kids: []*ev{scalarEv(r), inner, scalarEv(r)}}
+	}
+	return &ev{kind: "h", kids: []*ev{{kind: "s", s: "k"}, scalarEv(r), {kind: "s", s: "n"}, inner, {kind: "s", s: "z"}, scalarEv(r)}}
+}
+
+func chainVal(e *ev) sx.Sexp {
+	switch e.kind {
+	case "a":
+		xs := []sx.Sexp{}
+		for _, k := range e.kids {
+			xs = append(xs, chainVal(k))
+		}
+		return sx.T("a", xs...)
+	case "h":
+		xs := []sx.Sexp{}
+		for i := 0; i+1 < len(e.kids); i += 2 {
+			xs = append(xs, sx.L(chainVal(e.kids[i]), chainVal(e.kids[i+1])))
+		}
+		return sx.T("h", xs...)
+	}
+	return e.sexp()
+}
+
 func gen(g *core.G) {
+	// deep nesting: depth 1..12 (quick) / 1..40 (thorough), several shapes per depth
+	maxDepth := 12
+	if g.Thorough() {
+		maxDepth = 40
+	}
+	for d := 1; d <= maxDepth; d++ {
+		for k := 0; k < 6; k++ {
+			e := chain(g.Rng, d)
+			g.Emit("json " + e.sexp().String())
+			g.Emit("pbev " + e.sexp().String())
+			v := chainVal(e).String()
+			g.Emit("pb " + v)
+			g.Emit("@serjson " + v)
+			g.Emit("@serpb " + v)
+		}
+	}
 	// exhaustive small universe: every well-formed event tree with ≤ 4 (quick) / ≤ 5 (thorough) nodes
 	n := 4
 	if g.Thorough() {
@@ -573,7 +729,10 @@ func gen(g *core.G) {
 		}
 	}
 	for i := 0; i < 1500*g.Scale; i++ {
-		g.Emit("pb " + randVal(g.Rng, 1+g.Rng.Intn(4), i%10 == 0).String())
+		v := randVal(g.Rng, 1+g.Rng.Intn(4), i%10 == 0).String()
+		g.Emit("pb " + v)
+		g.Emit("@serjson " + v)
+		g.Emit("@serpb " + v)
 	}
 	// malformed stream (outside the property's quantifier; model and implementation must still agree)
 	for i := 0; i < 200*g.Scale; i++ {
